@@ -24,6 +24,7 @@
 //	 `exec` never reads them: it runs the formatter on the source.)
 //
 // output:  ok <alias>~<path>,...   the import specs of the formatted file (set, sorted)  |  err:parse
+//          (beyond 250 bytes: ok #<count>:<FNV-1a 32 of that line>)
 //
 // oracle (independent of the model; the statement evaluated on the formatter's output):
 //
@@ -46,6 +47,7 @@ import (
 	"go/ast"
 	"go/constant"
 	"go/token"
+	"hash/fnv"
 	"io"
 	"os"
 	"path/filepath"
@@ -579,6 +581,11 @@ func exec(toks []string) (string, string) {
 	impl := "ok " + strings.Join(keys, ",")
 	if len(keys) == 0 {
 		impl = "ok -"
+	}
+	if len(impl) > 250 { // the kit cuts output lines at 300 bytes
+		h := fnv.New32a()
+		h.Write([]byte(impl))
+		impl = fmt.Sprintf("ok #%d:%d", len(keys), h.Sum32())
 	}
 
 	// ---- oracle
